@@ -97,6 +97,14 @@ def extract():
     strs['corpusMarker'] = _find(r'lines\.append\(("\\n---END\.OF\.DOCUMENT---\\n\\n")\)', corp, 'corpus end-of-document marker', problems, '', _str_lit)
     strs['counterHeader'] = _find(r"def save_counter\(counter, filename, \*, header=('.*?')\)", cnt, 'save_counter header', problems, '', _str_lit)
     strs['attrSep'] = _find(r"new_attrs\[key\] = old_val \+ (' \| ') \+ new_val", ndl_src, 'attribute separator', problems, '', _str_lit)
+    # literals the corpus / counting / writer models copy (agreement theorems: C19, C11, C07 literals_match_source)
+    strs['corpusPunctuation'] = _find(r'^PUNCTUATION\s*=\s*tuple\((".*?")\)\s*$', corp, 'corpus.PUNCTUATION', problems, '', _str_lit)
+    strs['corpusSuffix'] = _find(r'if name\.endswith\(\((".*?"),\)\)\]', corp, 'corpus gz suffix', problems, '', _str_lit)
+    strs['notFoundSuffix'] = _find(r'io\.safe_write_path\(outfile \+ (".*?"), template=', corp, 'corpus .not_found suffix', problems, '', _str_lit)
+    strs['notFoundTemplate'] = _find(r"io\.safe_write_path\(outfile \+ \".*?\", template=('.*?')\)", corp, 'corpus not_found template', problems, '', _str_lit)
+    strs['countPunct'] = _find(r"word = word\.strip\(('(?:[^'\\]|\\.)*')\)", cnt, 'count.words_symbols punctuation', problems, '', _str_lit)
+    strs['legacyHeader'] = _find(r"legacy_columns = (\(.*?\))$", io_, 'io legacy columns', problems, '',
+                                 lambda src: '\t'.join(ast.literal_eval(src)))
     c['framesPerSecond'] = _find(r'^FRAMES_PER_SECOND\s*=\s*(.+)$', corp, 'corpus.FRAMES_PER_SECOND', problems)
     c['breakDurationTimes10'] = _find(r'JobParseGz\(break_duration=(\d+)\.0\)', corp, 'corpus break duration', problems) * 10
     c['chunkThrottle'] = _find(r'if ii % \(n_jobs\*(\d+)\) == 0', pre, 'submit throttle', problems)
